@@ -113,7 +113,7 @@ func Gen(t *rapid.T) *Universe {
 	}
 	rootRetrieval := ""
 	if g.hasBase {
-		rootRetrieval = rapid.SampledFrom([]string{"http://h.test/root.json", "http://h.test/dir/root.json", "http://h.test/a/b/root.json", "http://h.test/dir/root.json", "http://p.test", "http://p.test/", "http://h.test/dir/"}).Draw(t, "rooturi")
+		rootRetrieval = rapid.SampledFrom([]string{"http://h.test/root.json", "http://h.test/dir/root.json", "http://h.test/a/b/root.json", "http://h.test/dir/root.json", "http://p.test", "http://p.test/", "http://h.test/dir/", "http://h.test/dir/root.json?v=1"}).Draw(t, "rooturi")
 	}
 	g.newDoc(rootRetrieval, true)
 	remoteURIs := []string{"http://h.test/a.json", "http://h.test/dir/b.json", "http://other.test/c.json", "http://h.test/a/b/d.json", "http://h.test/dir/sub/e.json", "http://q.test", "http://h.test/Case.json", "http://h.test/case.json", "http://h.test/dir/B.json"}
@@ -411,6 +411,10 @@ func (g *gen) relativise(base refmodel.URI, abs string) (string, string) {
 		return frag, "fragment-only"
 	}
 	if opaque(base) || opaque(a) || !base.IsAbs() || base.Scheme != a.Scheme || base.Authority != a.Authority {
+		return abs, "absolute"
+	}
+	if a.HasQuery {
+		// a target URI with a query is spelled in full (or by fragment alone, above)
 		return abs, "absolute"
 	}
 	if a.Path == "" {
